@@ -67,7 +67,7 @@ def _stepwise(E, xd, idx):
 @scenario
 def tt_getitem(E, s):
     tn = E.tn
-    x, xc = tt_input(E, 'x', s['N'], s['R'], s['dtype'], s.get('M'))
+    x, xc = tt_input(E, 'x', s['N'], s['R'], s['dtype'], s.get('M'), via=s.get('via'))
     xd = dense(E, xc)
     idx = build_index(E, s['index'], s['N'])
     key = idx[0] if s.get('bare') else tuple(idx)
